@@ -20,7 +20,7 @@ for be in BACKS:
             'rows_back.spec.h', xform=xf, aux=policy_aux(),
             defines=['HAS_GUARD=%d' % g, 'HAS_ACTION=%d' % a],
             fire={'SCONST': (2, 2), 'ASSERT': (1, 1), 'AUX': (16, 16)},
-            replay=['order']))
+            replay=['order', 'hist']))
         if g:
             UNITS.append(Unit('%s.%s.check_guard' % (be, st), ['C02', 'C19', 'C09', 'C01'], be,
                 Part(H, ['struct ' + st], "static bool check_guard ( library_sm & fsm , transition_event", expect_anchors=1),
